@@ -66,6 +66,7 @@ type fcase struct {
 	b, e  int
 	recs  []frec
 	flush bool
+	base  int // the file begins with this many blocks of a hole (sparse): block numbers beyond 2^17 (offsets beyond 4 GiB)
 }
 
 func runCase(en *Env, c fcase, ioName string, seed int64) (h.Ev, string, bool) {
@@ -81,6 +82,13 @@ func runCase(en *Env, c fcase, ioName string, seed int64) (h.Ev, string, bool) {
 	hintBuf := make([]byte, datafile.MaxLogRecordPosSize)
 	ev := h.Ev{"ev": "case", "io": ioName, "flush": c.flush}
 	fail := func(msg string) (h.Ev, string, bool) { return nil, msg, false }
+	baseBytes := int64(c.base) * h.BlockSize
+	if c.base > 0 {
+		if f, err := os.Create(datafile.GetFileName(dir, 1, datafile.DataFileSuffix)); err == nil {
+			f.Truncate(baseBytes)
+			f.Close()
+		}
+	}
 	df, err := datafile.OpenFile(dir, 1, datafile.DataFileSuffix, ioType)
 	if err != nil {
 		return fail(err.Error())
@@ -95,12 +103,15 @@ func runCase(en *Env, c fcase, ioName string, seed int64) (h.Ev, string, bool) {
 		}
 		nf = 1
 	}
-	abs := df.Size()
+	abs := df.Size() - baseBytes
 	if abs != int64(c.b)*h.BlockSize+int64(c.e) {
 		df.Close()
 		return fail("filler missed")
 	}
+	// (offsets are logged relative to the end of the hole and block numbers minus its blocks: the layout arithmetic
+	// is periodic in the block size, and TLC's integers end at 2^31)
 	ev["abs"] = abs
+	ev["noseq"] = c.base > 0 // the sequential reader cannot be started behind the hole
 	recs := make([]frec, len(c.recs))
 	copy(recs, c.recs)
 	for i := range recs {
@@ -157,7 +168,7 @@ func runCase(en *Env, c fcase, ioName string, seed int64) (h.Ev, string, bool) {
 	if fi, err := os.Stat(name); err == nil {
 		physical = fi.Size()
 	}
-	ev["logical"], ev["physical"] = logical, physical
+	ev["logical"], ev["physical"] = logical-baseBytes, physical-baseBytes
 	// read back through a freshly opened file
 	seq := []map[string]any{}
 	rd := []bool{}
@@ -179,6 +190,17 @@ func runCase(en *Env, c fcase, ioName string, seed int64) (h.Ev, string, bool) {
 		defer df2.Close()
 		if df2.Size() != logical {
 			seqerr = "reopen-size"
+		}
+		if c.base > 0 {
+			// behind a hole only the positional reads are possible
+			for i := range recs {
+				if recs[i].kind == "hint" || recs[i].pos == nil {
+					continue
+				}
+				v, err := df2.ReadRecordValue(recs[i].pos)
+				rd = append(rd, err == nil && bytes.Equal(v, recs[i].val))
+			}
+			return
 		}
 		rdr := df2.NewReader()
 		for i := 0; i < nf; i++ {
@@ -245,14 +267,20 @@ func runCase(en *Env, c fcase, ioName string, seed int64) (h.Ev, string, bool) {
 			"hf": int(recs[i].hpos.Fid), "hb": int(recs[i].hpos.BlockID), "ho": int(recs[i].hpos.Offset), "hs": int(recs[i].hpos.Size),
 			"blk": -1, "off": -1, "size": -1}
 		if recs[i].pos != nil {
-			m["blk"], m["off"], m["size"] = int(recs[i].pos.BlockID), int(recs[i].pos.Offset), int(recs[i].pos.Size)
+			m["blk"], m["off"], m["size"] = int(recs[i].pos.BlockID)-c.base, int(recs[i].pos.Offset), int(recs[i].pos.Size)
 		}
 		out = append(out, m)
 	}
 	ev["recs"], ev["seq"], ev["seqerr"], ev["rd"] = out, seq, seqerr, rd
-	b, _ := os.ReadFile(name)
-	sum := sha1.Sum(b)
-	return ev, hex.EncodeToString(sum[:]), true
+	// the bytes behind the hole (the whole file if there is none)
+	hs := sha1.New()
+	if f, err := os.Open(name); err == nil {
+		if fi, err := f.Stat(); err == nil && fi.Size() > baseBytes {
+			io.Copy(hs, io.NewSectionReader(f, baseBytes, fi.Size()-baseBytes))
+		}
+		f.Close()
+	}
+	return ev, hex.EncodeToString(hs.Sum(nil)), true
 }
 
 // lengthFor picks a value length for a record starting (before padding) at file offset abs.
@@ -352,6 +380,20 @@ func profFraming(en *Env) {
 				}
 				c.recs = append(c.recs, fr)
 				cur += int64(h.ChunkHdr + h.RecLen(klen, fr.vlen)) // rough; only steers the next choice
+			}
+			if choice%25 == 7 {
+				// the same case behind a hole of 2^17 - 1 blocks: the appended records lie around the 4 GiB mark
+				c.base = 1<<17 - 1 - c.b
+				if r.Intn(2) == 0 {
+					c.base = 1<<17 + r.Intn(1000)
+				}
+				hasHint := false
+				for _, fr := range c.recs {
+					hasHint = hasHint || fr.kind == "hint"
+				}
+				if hasHint {
+					c.base = 0
+				}
 			}
 			seed := r.Int63()
 			ev1, h1, ok1 := runCase(en, c, "std", seed)
